@@ -56,7 +56,7 @@ type mdsEnv struct {
 	accAddr  map[string]sdk.AccAddress
 	accSym   map[string]string    // bech32 -> symbol
 	uid      map[string]uuid.UUID // symbol -> uuid
-	uidSym   map[string]string    // uuid string -> symbol
+	uidSym   map[string]string    // kind ":" uuid string -> symbol (uuids of different kinds may coincide)
 	recSym   map[string]string    // hex record address -> "s1/n1"
 	rspecSym map[string]string    // hex record spec address -> "c1/n1"
 	signers  []string
@@ -67,8 +67,21 @@ var (
 	mdsE    *mdsEnv
 )
 
+// mdsUUID: the uuid of the i-th symbol of a kind.  The LAST symbol of each kind has a boundary
+// uuid: all-zero (uuid.Nil; a valid uuid for every address type) for the third session and the
+// third contract specification, all-0xff (the prefix whose end bound needs a carry) for the third
+// scope and the second scope specification.
 func mdsUUID(kind string, i int) uuid.UUID {
 	var u uuid.UUID
+	switch {
+	case (kind == "session" || kind == "cspec") && i == 3:
+		return u
+	case (kind == "scope" && i == 3) || (kind == "sspec" && i == 2):
+		for j := range u {
+			u[j] = 0xff
+		}
+		return u
+	}
 	copy(u[:], []byte(fmt.Sprintf("vf-%-8s-%04d", kind, i)))
 	return u
 }
@@ -104,7 +117,7 @@ func mdsSetup(t *testing.T) *mdsEnv {
 			for i, s := range syms {
 				u := mdsUUID(kind, i+1)
 				e.uid[s] = u
-				e.uidSym[u.String()] = s
+				e.uidSym[kind+":"+u.String()] = s
 			}
 		}
 		reg("scope", mdsScopes)
@@ -191,8 +204,95 @@ type mdsMsg interface {
 	ValidateBasic() error
 }
 
-// exec executes one op on the real msg server / keeper (cached context, written on success only).
+// regRecord / regSession extend the symbol tables for the names / session symbols of a bulk line.
+func (e *mdsEnv) regRecord(scope, name string) {
+	h := hex.EncodeToString(mdtypes.RecordMetadataAddress(e.u(scope), name))
+	sym := scope + "/" + strings.ToLower(strings.TrimSpace(name))
+	if prev, ok := e.recSym[h]; ok && prev != sym {
+		panic("record address collision " + prev + " " + sym)
+	}
+	e.recSym[h] = sym
+}
+
+func (e *mdsEnv) regRSpec(cspec, name string) {
+	h := hex.EncodeToString(mdtypes.RecordSpecMetadataAddress(e.u(cspec), name))
+	sym := cspec + "/" + strings.ToLower(strings.TrimSpace(name))
+	if prev, ok := e.rspecSym[h]; ok && prev != sym {
+		panic("record spec address collision " + prev + " " + sym)
+	}
+	e.rspecSym[h] = sym
+}
+
+func (e *mdsEnv) regSession(sym string) {
+	if _, ok := e.uid[sym]; ok {
+		return
+	}
+	var u uuid.UUID
+	copy(u[:], []byte(fmt.Sprintf("vf-bulk-%-8s", sym)))
+	if prev, ok := e.uidSym["session:"+u.String()]; ok && prev != sym {
+		panic("session uuid collision " + prev + " " + sym)
+	}
+	e.uid[sym] = u
+	e.uidSym["session:"+u.String()] = sym
+}
+
+// exec executes one line: one op, or a bulk line that abbreviates a sequence of messages, each
+// executed (and rolled back on failure) on its own; then dumps the state.
+//
+//	wrecs <s> <x> <prefix> <from> <count> spec=..            = wrec <s> <x> <prefix><i> spec=..
+//	wsesss <s> <prefix> <from> <count> spec=.. parties=.. name=..  = wsess <s> <prefix><i> spec=.. ..
+//	wrspecs <c> <prefix> <from> <count>                      = wrspec <c> <prefix><i>
 func (e *mdsEnv) exec(op string) string {
+	ws := strings.Fields(op)
+	if ws[0] == "wrecs" || ws[0] == "wsesss" || ws[0] == "wrspecs" {
+		var from, count int
+		var one func(i int) string
+		if ws[0] == "wrspecs" {
+			fmt.Sscan(ws[3], &from)
+			fmt.Sscan(ws[4], &count)
+			one = func(i int) string {
+				name := fmt.Sprintf("%s%d", ws[2], i)
+				e.regRSpec(ws[1], name)
+				return "wrspec " + ws[1] + " " + name
+			}
+		} else if ws[0] == "wrecs" {
+			fmt.Sscan(ws[4], &from)
+			fmt.Sscan(ws[5], &count)
+			one = func(i int) string {
+				name := fmt.Sprintf("%s%d", ws[3], i)
+				e.regRecord(ws[1], name)
+				return "wrec " + ws[1] + " " + ws[2] + " " + name + " " + strings.Join(ws[6:], " ")
+			}
+		} else {
+			fmt.Sscan(ws[3], &from)
+			fmt.Sscan(ws[4], &count)
+			one = func(i int) string {
+				sym := fmt.Sprintf("%s%d", ws[2], i)
+				e.regSession(sym)
+				return "wsess " + ws[1] + " " + sym + " " + strings.Join(ws[5:], " ")
+			}
+		}
+		okN := 0
+		for i := from; i < from+count; i++ {
+			if e.run1(one(i)) == "ok" {
+				okN++
+			}
+		}
+		res := "ok"
+		if okN != count {
+			res = fmt.Sprintf("some:%d", okN)
+		}
+		return res + " " + e.dump()
+	}
+	res := e.run1(op)
+	if res == "bad-op" {
+		return res
+	}
+	return res + " " + e.dump()
+}
+
+// run1 executes one op on the real msg server / keeper (cached context, written on success only).
+func (e *mdsEnv) run1(op string) string {
 	ws := strings.Fields(op)
 	var run func(ctx sdk.Context) error
 	// msg runs ValidateBasic first (as baseapp does), then the real handler.
@@ -325,7 +425,7 @@ func (e *mdsEnv) exec(op string) string {
 	} else if err != nil {
 		res = mdsErrClass(err)
 	}
-	return res + " " + e.dump()
+	return res
 }
 
 // ---- canonical dump of the implementation's state and lookups ----
@@ -335,7 +435,16 @@ func (e *mdsEnv) symU(ma mdtypes.MetadataAddress) string {
 	if err != nil {
 		return "?" + hex.EncodeToString(ma)
 	}
-	if s, ok := e.uidSym[u.String()]; ok {
+	kind := "scope"
+	if len(ma) > 0 {
+		switch ma[0] {
+		case mdtypes.ContractSpecificationKeyPrefix[0], mdtypes.RecordSpecificationKeyPrefix[0]:
+			kind = "cspec"
+		case mdtypes.ScopeSpecificationKeyPrefix[0]:
+			kind = "sspec"
+		}
+	}
+	if s, ok := e.uidSym[kind+":"+u.String()]; ok {
 		return s
 	}
 	return "?" + u.String()
@@ -346,7 +455,7 @@ func (e *mdsEnv) symSession(ma mdtypes.MetadataAddress) string {
 	if err != nil {
 		return "?" + hex.EncodeToString(ma)
 	}
-	s2, ok := e.uidSym[u2.String()]
+	s2, ok := e.uidSym["session:"+u2.String()]
 	if !ok {
 		s2 = "?" + u2.String()
 	}
@@ -471,7 +580,7 @@ func (e *mdsEnv) dump() string {
 			vo = append(vo, "?err:"+n)
 		} else {
 			for _, us := range resp.ScopeUuids {
-				s, ok := e.uidSym[us]
+				s, ok := e.uidSym["scope:"+us]
 				if !ok {
 					s = "?" + us
 				}
@@ -691,6 +800,7 @@ type mdsSnap struct {
 	da       map[string][]string
 	vo       map[string]string
 	sessions [][2]string // scope, session
+	sessSpec map[[2]string]string // (scope, session) -> contract spec
 	records  [][3]string // scope, session, name
 	spec     map[string]string   // scope -> scope spec
 	cspecs   []string            // stored contract specs
@@ -702,7 +812,7 @@ type mdsSnap struct {
 
 func (e *mdsEnv) snapshot() mdsSnap {
 	sn := mdsSnap{owners: map[string][]string{}, da: map[string][]string{}, vo: map[string]string{}, spec: map[string]string{},
-		csOwners: map[string][]string{}, ssOwners: map[string][]string{}, ssCSpecs: map[string][]string{}}
+		csOwners: map[string][]string{}, ssOwners: map[string][]string{}, ssCSpecs: map[string][]string{}, sessSpec: map[[2]string]string{}}
 	syms := func(l []string) []string {
 		var out []string
 		for _, a := range l {
@@ -743,6 +853,7 @@ func (e *mdsEnv) snapshot() mdsSnap {
 	_ = e.k.IterateSessions(e.ctx, mdtypes.MetadataAddress{}, func(s mdtypes.Session) bool {
 		p := strings.SplitN(e.symSession(s.SessionId), "/", 2)
 		sn.sessions = append(sn.sessions, [2]string{p[0], p[1]})
+		sn.sessSpec[[2]string{p[0], p[1]}] = e.symU(s.SpecificationId)
 		return false
 	})
 	_ = e.k.IterateRecords(e.ctx, mdtypes.MetadataAddress{}, func(rec mdtypes.Record) bool {
@@ -1039,6 +1150,98 @@ func (e *mdsEnv) genOp(r *RNG, boot bool, out *Out) string {
 	}
 }
 
+// mdsBulkCount: how many sessions / records a LARGE scope gets: around the usual batch, page and
+// buffer sizes (one below, exactly, one above, well above).
+func mdsBulkCount(r *RNG) int {
+	base := Pick(r, []int{16, 32, 50, 64, 100, 128, 200, 250, 256})
+	switch r.Intn(4) {
+	case 0:
+		return base
+	case 1:
+		return base + 1
+	case 2:
+		return base + 1 + r.Intn(base/2)
+	default:
+		return base - 1 - r.Intn(3)
+	}
+}
+
+// mdsLargeScope: lines that give an existing scope MANY records and / or sessions (in one
+// session, spread over two sessions, record-less sessions, or both), a few random ops, and the
+// deletion of that scope.  Nothing in the small universe of the other histories ever has more than
+// five records or three sessions, so nothing that works in batches / pages ever sees a second one.
+func (e *mdsEnv) mdsLargeScope(r *RNG, out *Out, emit func(string)) {
+	sn := e.snapshot()
+	if len(sn.sessions) == 0 {
+		out.Count("gen:large:no-session")
+		return
+	}
+	se := Pick(r, sn.sessions)
+	s, x := se[0], se[1]
+	cspec := "c1"
+	if r.Chance(25) {
+		cspec = Pick(r, mdsCSpecs)
+	}
+	n := mdsBulkCount(r)
+	// a record needs the record specification of its name under its session's contract specification
+	rspecs := func(x string, pfx string, from, cnt int) {
+		c, ok := sn.sessSpec[[2]string{s, x}]
+		if !ok {
+			c = cspec
+		}
+		if r.Chance(95) {
+			emit(fmt.Sprintf("wrspecs %s %s %d %d", c, pfx, from, cnt))
+		}
+	}
+	switch k := r.Intn(4); k {
+	case 0:
+		out.Count("gen:large:records-one-session")
+		rspecs(x, "k", 0, n)
+		emit(fmt.Sprintf("wrecs %s %s k 0 %d spec=-", s, x, n))
+	case 1:
+		out.Count("gen:large:records-two-sessions")
+		x2 := x
+		for _, o := range sn.sessions {
+			if o[0] == s && o[1] != x {
+				x2 = o[1]
+			}
+		}
+		if x2 == x {
+			x2 = Pick(r, mdsMinus(mdsSessions, []string{x}))
+			emit("wsess " + s + " " + x2 + " spec=" + cspec + " parties=" + mdsSp(r, "A") + " name=-")
+			sn.sessSpec[[2]string{s, x2}] = cspec
+		}
+		h := 1 + r.Intn(n)
+		rspecs(x, "k", 0, h)
+		rspecs(x2, "k", h, n-h)
+		emit(fmt.Sprintf("wrecs %s %s k 0 %d spec=-", s, x, h))
+		emit(fmt.Sprintf("wrecs %s %s k %d %d spec=-", s, x2, h, n-h))
+	case 2:
+		out.Count("gen:large:recordless-sessions")
+		emit(fmt.Sprintf("wsesss %s y 0 %d spec=%s parties=%s name=-", s, n, cspec, mdsSp(r, "A")))
+	default:
+		out.Count("gen:large:sessions-and-records")
+		emit(fmt.Sprintf("wsesss %s y 0 %d spec=%s parties=%s name=%s", s, n, cspec, mdsSp(r, "A"), Pick(r, []string{"-", "sess"})))
+		n2 := mdsBulkCount(r)
+		rspecs(x, "k", 0, n2)
+		emit(fmt.Sprintf("wrecs %s %s k 0 %d spec=-", s, x, n2))
+		if r.Bool() {
+			// records in some of the many sessions too
+			y, m := r.Intn(n), 1+r.Intn(6)
+			sn.sessSpec[[2]string{s, fmt.Sprintf("y%d", y)}] = cspec
+			rspecs(fmt.Sprintf("y%d", y), "m", 0, m)
+			emit(fmt.Sprintf("wrecs %s y%d m 0 %d spec=-", s, y, m))
+		}
+	}
+	if n > 100 {
+		out.Count("gen:large:over-100")
+	}
+	for i := r.Intn(4); i > 0; i-- {
+		emit(e.genOp(r, true, out))
+	}
+	emit("dscope " + s)
+}
+
 // mdsBootstrap: a prefix that builds the specification tree and one scope so that the rest of
 // the history mostly operates on existing entries.
 func mdsBootstrap(r *RNG) []string {
@@ -1101,6 +1304,19 @@ func driveMdStore(t *testing.T, rng *RNG, n int, out *Out) {
 			out.Count("history:cold")
 		}
 		steps := 8 + rng.Intn(18)
+		if rng.Chance(5) {
+			out.Count("history:large-scope")
+			if !boot {
+				for _, op := range mdsBootstrap(rng) {
+					emit(op)
+				}
+			}
+			for i := rng.Intn(3); i > 0; i-- {
+				emit(e.genOp(rng, true, out))
+			}
+			e.mdsLargeScope(rng, out, emit)
+			steps = 3 + rng.Intn(6)
+		}
 		for i := 0; i < steps; i++ {
 			emit(e.genOp(rng, boot, out))
 		}
